@@ -534,7 +534,7 @@ def execute(fa, history, enc, want_lines=True, alt=False):
         one expression): replay them to the model as primitive constructions read off the registered objects."""
         if not want_lines:
             return
-        new = sorted((e for e in ctx._expressions.values() if e.intkey >= before), key=lambda e: e.intkey)
+        new = sorted((e for e in ctx._expressions.values() if isinstance(e.intkey, int) and e.intkey >= before), key=lambda e: e.intkey)
         for e in new:
             try:
                 if e.kind == "symbol":
@@ -571,7 +571,7 @@ def execute(fa, history, enc, want_lines=True, alt=False):
                 r = None
             else:
                 new = ctx._expression_counter - before
-                out = ("fresh" if new == 1 and r.intkey == before else "hit" if new == 0 else "multi%d" % new)
+                out = ("fresh" if new == 1 and r.intkey == before else "hit" if new == 0 and isinstance(r.intkey, int) else "multi%d" % new)
         res.outcomes.append(out)
         res.count("out:" + out.split(":")[0])
         if r is None and wellformed():
@@ -815,7 +815,8 @@ def execute(fa, history, enc, want_lines=True, alt=False):
             if eq != (ts1 == ts2) or (eq and not heq):
                 finding("type-eq:not-structural", "Type %r == Type %r is %r (hash equal: %r)" % (ts1, ts2, eq, heq), len(history))
     # ids dense: intkeys of all objects are exactly 0..counter-1, each once
-    ids = sorted(o.intkey for o in ctx._expressions.values())
+    ids = [o.intkey for o in ctx._expressions.values()]
+    ids = sorted(i if isinstance(i, int) else -1 for i in ids)
     if ids != list(range(ctx._expression_counter)):
         finding("ids-not-dense", "intkeys %r vs counter %d" % (ids[:20], ctx._expression_counter), len(history))
     res.n_objects = len(objnum)
